@@ -30,6 +30,29 @@ def run(chk):
     rule_int(chk)
     rule_float(chk)
     rule_payload(chk)
+    rule_positions(chk)
+
+
+def rule_positions(chk):
+    """'Every diagnostic position lies inside the file': the location decoders of SourceManager (C14.line rules) are
+    re-evaluated under this property - first line/column, per-byte advance, prefix scanned, file_size + 1 reservation
+    and the strict file-range test shared by both decoders."""
+    import c04
+    import c14
+    import interp as I
+
+    class Px(c04.Proxy):
+        def _k(self, key):
+            for a, b in self.mapping:
+                if key.startswith(a):
+                    return b + key[len(a):]
+            return "C10.position/" + key
+
+        def ob(self, key, ok, why="", where=None, trivial=False, sample=None):
+            if key.startswith("C14.diag"):
+                return ok
+            return c04.Proxy.ob(self, key, ok, why, where, trivial, sample)
+    c14.rule_line(Px(chk, [("C14.line", "C10.position"), ("C14.anchor", "C10.anchor/c14")]), I.Interp(chk.facts))
 
 
 def rule_tile(chk):
